@@ -379,6 +379,8 @@ def c09g_batch(ctx):
         o.sites += len(ins) + len(keep_first)
         if not ins:
             ctx.fail(o, Site(b, 0, 0), "%s does not overwrite the recorded operation with HashMap::insert" % fn)
+        elif b.must_pass([0], [i_.bb for i_ in ins]):
+            ctx.fail(o, Site(b, 0, 0), "%s can return without having recorded the operation (an arm without HashMap::insert): that write never reaches the store" % fn)
         for s_ in b.calls_to(r"Entry::<[^>]*>::(or_insert|or_insert_with|or_insert_with_key|or_default)$|::try_insert$"):
             # or_default()/or_insert on the *outer* (per-key) map is fine when its result is then written with insert
             if not any(k == "arg" and st.node["fn"]["path"].endswith("::insert") for k, st, i in df.forward_uses(b, s_)):
